@@ -436,6 +436,21 @@ func driftStep(r *rand.Rand, s Scn) Step {
 	if e.Op == "relabel" && s.Sets[0].PkgLabel == "" {
 		e.Op = "setPayload" // without a package label PKO does not manage that label: nothing to repair
 	}
+	// someone strips the ownerReferences: repaired (re-adopted) only where collision protection allows
+	// adopting an object without controller; with Prevent PKO refuses by design (C01), which is not drift
+	adoptable := true
+	for _, sp := range s.Sets {
+		for _, ph := range sp.Phases {
+			for _, o := range ph.Objects {
+				if o.Name == name && o.CP != "IfNoController" && o.CP != "None" {
+					adoptable = false
+				}
+			}
+		}
+	}
+	if adoptable && r.Intn(3) == 0 {
+		e.Op, e.Owners = "reown", nil
+	}
 	switch e.Op {
 	case "setPayload":
 		e.Payload = pick(r, []string{"drift", "drift2"})
@@ -456,7 +471,26 @@ func Disturb(r *rand.Rand, base Scn, nFaults, nDrift int) Scn {
 	s.Steps = append([]Step(nil), base.Steps...)
 	for d := 0; d < nDrift; d++ {
 		i := r.Intn(len(s.Steps) + 1)
-		s.Steps = append(s.Steps[:i], append([]Step{driftStep(r, s)}, s.Steps[i:]...)...)
+		ds := []Step{driftStep(r, s)}
+		if ds[0].Env[0].Op == "reown" {
+			// ... and only while every revision is still alive: once a revision is deleted or archived its
+			// teardown must NOT touch an object it no longer controls (C05), so the object would stay behind
+			for j, st := range s.Steps {
+				if st.Op == "delete" || (st.Op == "lifecycle" && st.Value == "Archived") {
+					if i > j {
+						i = r.Intn(j + 1)
+					}
+					break
+				}
+			}
+			// stripped ownerReferences can only be repaired while the owner still wants the object: the
+			// edit triggers a reconcile of every revision before anything else happens (a revision
+			// deleted right after the edit could never learn that the object was its own)
+			for _, sp := range s.Sets {
+				ds = append(ds, Step{Op: "reconcile", Set: sp.Name})
+			}
+		}
+		s.Steps = append(s.Steps[:i], append(ds, s.Steps[i:]...)...)
 	}
 	if r.Intn(6) == 0 {
 		i := r.Intn(len(s.Steps) + 1)
